@@ -48,6 +48,68 @@ CHECKS["C19"] = dict(
     technique="Coq proof over Q model + in-Coq correspondence with tf.GradientTape gradients",
     design="7/C19")
 
+
+CHECKS["C01"] = dict(
+    text=("Theorems (Props/C01.v) about the Gallina model of lattice_lib.finalize_constraints and the strict "
+          "LatticeConstraints.__call__: for every rank, sizes, unit count, valid trust configuration and rational "
+          "kernel the result is monotone along every monotone dimension, satisfies every Edgeworth and trapezoid "
+          "trust and lies inside the bounds, and a feasible kernel passes unchanged; finalize is applied to an "
+          "ARBITRARY kernel, so iteration counts and other families configured alongside are covered. Guards: the "
+          "documented exception (trapezoid only) and known finding D1 (monotone conditional feature of a trapezoid "
+          "trust with Edgeworth present), for which C01_refuted_trap_mono_cond exhibits the witness. The model is "
+          "compared in Coq with finalize_constraints / LatticeConstraints on float64 kernels on every run."),
+    note="Models: Model/LatticeFinalize.v; the Dykstra stage's real output is an input of the model (its own model "
+         "and theorems are under C08). Open known finding D1 is listed in known_findings.json.",
+    technique="Coq proof (invariants over the projection passes) + in-Coq correspondence",
+    design="7/C01")
+CHECKS["C02"] = dict(
+    text=("Theorems (Props/C02.v), every rank / sizes >= 2 / units: hypercube output = multilinear formula of the "
+          "containing cell, simplex output = sorted-simplex formula; vertex reproduction, convex combination, "
+          "continuity across faces, tie-order independence, agreement of both schemes on vertices and axis-parallel "
+          "edges, monotone for every pair of points when the kernel is, Edgeworth effect. Model mirrors "
+          "evaluate_with_*_interpolation line by line and is compared in Coq with the real layer on every run."),
+    note="Models: Model/Interp1D.v, Model/LatticeInterp.v. Bucketing/split/reshape/matmul plumbing tied only.",
+    technique="Coq proof over Q model + in-Coq correspondence with the Lattice layer",
+    design="7/C02")
+CHECKS["C05"] = dict(
+    text=("Theorems (Props/C05.v), any keypoint count / positive lengths / units: PWLCalibration output takes the "
+          "cumulative kernel sums at keypoints, is linear between and constant outside, cyclic ends equal, "
+          "single-column broadcast per unit, missing-value imputation (learned or fixed), learned keypoints ordered "
+          "with fixed ends for any logits (softmax oracle), categorical row lookup and default bucket; hence "
+          "monotone/bounded functions and reported keypoints on the graph. Compared in Coq with real layers."),
+    note="Models: Model/PWLEval.v, Model/CategoricalEval.v; softmax is an oracle (positive, sums to 1) captured "
+         "from TensorFlow and checked numerically.",
+    technique="Coq proof over Q model + in-Coq correspondence with calibration layers",
+    design="7/C05")
+CHECKS["C13"] = dict(
+    text=("Theorems (Props/C13.v): code-shaped models of the five regularizers equal independently written "
+          "documented sums for every rank/size/units/row count; non-negative, linear in l1/l2, per-dimension "
+          "amounts weight their own dimension (torsion pairs by product), zero on constant / separable / "
+          "linear-index / quadratic-index kernels, cyclic variants. Real regularizer objects and layer.losses are "
+          "compared in Coq with both model and formula on every run."),
+    note="Model: Model/Regularizers.v; transpose+reshape by index meaning; sqrt(l)^2 = l as oracle fact.",
+    technique="Coq proof (two definitions proved equal) + in-Coq correspondence",
+    design="7/C13")
+CHECKS["C17"] = dict(
+    text=("Theorems (Props/C17.v) over executable models of RTL._get_rtl_structure and call routing, "
+          "set_random_lattice_ensemble, the Crystals pair cover and _get_final_crystal_lattices, for every layout, "
+          "rank, lattice count and every value of the random source (shuffles = any permutation, choices = any "
+          "admissible pick): rank, coverage, +-1 balance, monotone wiring, labelling, determinism; no-repeat; all "
+          "pairs covered; Crystals rank/coverage whenever the use allocation returns (known finding D13 witness "
+          "otherwise). Structures compared in Coq with the code's on every run."),
+    note="Models: Model/RTLStructure.v, Model/Ensembles.v; NumPy random values replayed/recorded as oracle values.",
+    technique="Coq proof over combinatorial model with permutation oracles + in-Coq structural comparison",
+    design="7/C17")
+CHECKS["C18"] = dict(
+    text=("Theorems (Props/C18.v) for an executable model of compute_keypoints / _weighted_quantile and the "
+          "feature/label helpers: strictly increasing keypoints (>= 2 distinct clipped values), within range, "
+          "endpoints at clip bounds / data extremes, count, repair loop always finds a free index, accepted by "
+          "PWLCalibration, no error for non-negative weights with positive sum - for every rounding to a nearest "
+          "integer. Compared in Coq with ~1900 real calls per run, either neighbour accepted at exact ties."),
+    note="Model: Model/Keypoints.v; hand-written meaning of np.unique/argsort/reduceat/quantile/interp/rint/linspace.",
+    technique="Coq proof over Q/Z model + in-Coq correspondence with compute_keypoints",
+    design="7/C18")
+
 NOT_YET = {}
 
 
